@@ -117,6 +117,14 @@ func (r *MemoryModelRegistry) RegisterModels(ctx context.Context, endpointURL st
 	default:
 	}
 
+	// Validate the whole listing before touching any state: a rejected update must leave the
+	// previous attribution of this endpoint intact
+	for _, model := range models {
+		if model != nil && model.Name == "" {
+			return domain.NewModelRegistryError("register_models", endpointURL, model.Name, fmt.Errorf("model name cannot be empty"))
+		}
+	}
+
 	r.mu.Lock()
 	defer r.mu.Unlock()
 
